@@ -93,13 +93,24 @@ def main():
             meta["check"][p] = {"cmd": "VERIF_REPO=<patched tree> python3 verify.py check %s --tier %s" % (p, tier), "exit": rc,
                                 "verdict": "CAUGHT" if rc == 1 and viol else "MISSED", "first_violation_line": viol[0] if viol else "",
                                 "seconds": round(time.time() - t0)}
+            oldc = os.environ.get("SEED_VERIF_OLD")
+            if oldc:
+                # the same check as it was at an earlier commit of /verif (before it was strengthened in response to seeds)
+                ow = "/tmp/verif-old-%d" % os.getpid()
+                sh(["git", "-C", ROOT, "worktree", "remove", "--force", ow])
+                sh(["git", "-C", ROOT, "worktree", "add", "--detach", ow, oldc])
+                rc2, out2 = sh([sys.executable, os.path.join(ow, "verify.py"), "check", p, "--tier", tier], cwd=ow, env=dict(ENV, VERIF_REPO=wt), timeout=7200)
+                viol2 = [l for l in out2.splitlines() if l.startswith("VIOLATION")]
+                meta["check"][p]["verdict_of_the_check_before_strengthening"] = {"verif_commit": oldc, "exit": rc2, "verdict": "CAUGHT" if rc2 == 1 and viol2 else "MISSED"}
+                sh(["git", "-C", ROOT, "worktree", "remove", "--force", ow])
+                shutil.rmtree(ow, ignore_errors=True)
     finally:
         sh(["git", "-C", "/repo", "worktree", "remove", "--force", wt])
         shutil.rmtree(wt, ignore_errors=True)
         for d in glob.glob(os.path.join(ROOT, ".build", "mod-*")):
             shutil.rmtree(d, ignore_errors=True)
     readme = os.path.join(seed, "README.md")
-    n = 1
+    n = int(os.environ.get("SEED_ROUND", "1"))
     while os.path.exists(os.path.join(ROOT, "seeded", "%s-%d" % (prop, n))):
         n += 1
     dst = os.path.join(ROOT, "seeded", "%s-%d" % (prop, n))
